@@ -10,6 +10,7 @@ import ast
 import hashlib
 import json
 import os
+import re
 import sys
 import time
 from dataclasses import dataclass, field
@@ -30,6 +31,10 @@ def src_root() -> Path:
 # ----------------------------------------------------------------------------
 # Loader
 # ----------------------------------------------------------------------------
+
+ACCESS_LOG: list = []          # (module, qualname) looked up by the rules; consumed per obligation (see Check.ob)
+ALL_ACCESS: list = []          # the same, never consumed (Check.guard takes the slice of one rule)
+
 
 class Module:
     def __init__(self, name: str, path: Path, rel: str, source: str):
@@ -59,6 +64,8 @@ class Module:
 
     # -- lookup ---------------------------------------------------------------
     def _lookup(self, qual: str):
+        ACCESS_LOG.append((self.name, qual))
+        ALL_ACCESS.append((self.name, qual))
         node = self.tree
         for part in qual.split("."):
             found = None
@@ -192,6 +199,7 @@ class Repo:
         m = self.modules.get(name)
         if m is None:
             raise AnalysisError(f"anchor vanished: module {name}")
+        ALL_ACCESS.append((name, None))
         return m
 
     def digest(self, names=None) -> str:
@@ -292,6 +300,7 @@ class Obligation:
     detail: str = ""
     loc: str = ""
     facts: dict | None = None
+    deps: tuple = ()
 
     @property
     def key(self) -> str:
@@ -322,12 +331,18 @@ class Check:
         self.rules_text: dict[str, str] = {}
         self.extra: dict = {}
         self.assumptions: list[str] = []
+        self.shape_independent: set[str] = set()
+        self.aborted: list = []
         self.seed = int(os.environ.get("VERIF_SEED", "0") or 0)
 
     # -- recording -----------------------------------------------------------------
-    def rule(self, rid: str, text: str, floor: int = 1):
+    def rule(self, rid: str, text: str, floor: int = 1, shape_independent: bool = False):
+        """shape_independent: the rule's extraction does not depend on the statement shapes of the functions it reads (generic
+        engines: effects, memo, variants, one-shot iterators, name resolution, ...); its violations are never downgraded."""
         self.rules_text[rid] = text
         self.floors[rid] = floor
+        if shape_independent:
+            self.shape_independent.add(rid)
 
     def saw(self, mod: Module, qual: str | None = None):
         self.analysed_files.add(mod.rel)
@@ -338,7 +353,9 @@ class Check:
         if rule not in self.rules_text:
             raise AnalysisError(f"internal: rule {rule} used before being declared")
         status = OK if ok is True else VIOLATED if ok is False else UNDECIDED
-        self.obs.append(Obligation(rule, construct, status, detail, loc, facts))
+        deps = tuple(dict.fromkeys(ACCESS_LOG))
+        del ACCESS_LOG[:]
+        self.obs.append(Obligation(rule, construct, status, detail, loc, facts, deps))
         return ok
 
     def ok(self, rule, construct, detail="", loc="", facts=None):
@@ -353,6 +370,20 @@ class Check:
     def note(self, text: str):
         self.notes.append(text)
 
+    def guard(self, fn, *args, **kw):
+        """Run one rule; an AnalysisError inside it (vanished anchor, unrecognised table, ...) aborts that rule only. Whether the
+        abort is the tree's doing (functions renamed / restructured since the rule was written: reported as undecided) or the
+        checker's (the consulted code is unchanged: ANALYSIS-ERROR, exit 2) is decided in finish()."""
+        before = set(self.floors)
+        mark = len(ALL_ACCESS)
+        try:
+            return fn(*args, **kw)
+        except AnalysisError as e:
+            deps = tuple(dict.fromkeys(ALL_ACCESS[mark:]))
+            del ACCESS_LOG[:]
+            self.aborted.append((getattr(fn, "__name__", str(fn)), str(e), deps, set(self.floors) - before))
+            return None
+
     # -- finishing ------------------------------------------------------------------
     def finish(self, write_evidence=True) -> int:
         known = [k for k in load_known_findings() if k.get("property") == self.prop]
@@ -360,8 +391,15 @@ class Check:
         counts: dict[str, int] = {}
         for o in self.obs:
             counts[o.rule] = counts.get(o.rule, 0) + 1
+        restructured = self._restructured_functions()
+        self._downgrade_in_restructured(restructured, open_keys)
+        self._triage_aborted_rules()
         for rid, fl in self.floors.items():
             if counts.get(rid, 0) < fl:
+                if restructured and counts.get(rid, 0) > 0:
+                    self.notes.append(f"rule {rid} matched {counts.get(rid, 0)} instance(s), fewer than the {fl} confirmed on the tree it was written "
+                                      f"for; functions it reads were restructured since ({', '.join(sorted(restructured))[:200]}), so this is reported, not failed")
+                    continue
                 raise AnalysisError(
                     f"instance floor: rule {rid} matched {counts.get(rid, 0)} instance(s), "
                     f"expected at least {fl} (a rule matching too little passes vacuously)")
@@ -408,6 +446,135 @@ class Check:
         if write_evidence:
             self._write_evidence(n_ok, n_und, viol, known_hit, new_viol, counts)
         return 1 if new_viol else 0
+
+    # -- functions rewritten since the rules were confirmed ------------------------------------------
+    RESTRUCTURE_THRESHOLD = 4       # statements changed/added/removed in one function; a realistic defect edits fewer
+
+    def _function_at(self, loc: str):
+        """(module name, qualname, node) of the innermost function containing file:line"""
+        if ":" not in loc:
+            return None
+        rel, _, line = loc.rpartition(":")
+        try:
+            line = int(line)
+        except ValueError:
+            return None
+        mod = next((m for m in self.repo.modules.values() if m.rel == rel), None)
+        if mod is None:
+            return None
+        best = None
+        for q, f in mod.functions():
+            if f.lineno <= line <= (f.end_lineno or f.lineno):
+                if best is None or f.lineno >= best[2].lineno:
+                    best = (mod.name, q, f)
+        return best
+
+    def _restructured_functions(self) -> dict:
+        """{module:qualname -> reason} for every function looked up or reported on by this check that differs from the reference
+        tree (sa/refnames.json) by RESTRUCTURE_THRESHOLD statements or more, or that the reference does not know."""
+        from . import renames
+        if not renames.table() or os.environ.get("VERIF_NO_RENAMES"):
+            return {}
+        cands = {}
+        for o in self.obs:
+            for (mn, q) in o.deps:
+                cands[(mn, q)] = None
+            fa = self._function_at(o.loc) if o.status == VIOLATED else None
+            if fa:
+                cands[(fa[0], fa[1])] = fa[2]
+        out = {}
+        for (mn, q), node in cands.items():
+            mod = self.repo.modules.get(mn)
+            if mod is None:
+                continue
+            if node is None:
+                n = mod._lookup(q)
+                del ACCESS_LOG[-1:]
+                node = n if isinstance(n, (ast.FunctionDef, ast.AsyncFunctionDef)) else None
+            if node is None:
+                continue
+            d = renames.edit_distance_to_reference(mn, q, node)
+            if d is None:
+                if mn in renames.table():
+                    out[f"{mn}:{q}"] = "not in the reference tree (new or renamed function)"
+            elif d[0] >= self.RESTRUCTURE_THRESHOLD:
+                out[f"{mn}:{q}"] = f"{d[0]} of {d[1]} statements differ from the reference tree"
+        return out
+
+    def _triage_aborted_rules(self):
+        """An aborted rule is excused (reported, exit code unaffected) only when the code it reads changed relative to the reference
+        tree: a function it looked up differs from the reference, is new, or a function of a consulted module disappeared (renamed or
+        removed). On an unchanged tree an abort is the checker's fault and fails the run (exit 2)."""
+        if not self.aborted:
+            return
+        from . import renames
+        tab = renames.table()
+        for name, msg, deps, declared in self.aborted:
+            excuse = None
+            mods = {mn for (mn, q) in deps}
+            m_ = re.search(r"(irispie(?:\.\w+)+):", msg)
+            if m_:
+                mods.add(m_.group(1))
+            for (mn, q) in deps:
+                if q is None:
+                    continue
+                mod = self.repo.modules.get(mn)
+                node = mod._lookup(q) if mod else None
+                del ACCESS_LOG[-1:]
+                if isinstance(node, (ast.FunctionDef, ast.AsyncFunctionDef)):
+                    d = renames.edit_distance_to_reference(mn, q, node)
+                    if d is None and mn in tab:
+                        excuse = f"{mn}:{q} is not in the reference tree"
+                    elif d is not None and d[0] >= 1:
+                        excuse = f"{mn}:{q} differs from the reference tree in {d[0]} statement(s)"
+                if excuse:
+                    break
+            if not excuse and tab and not os.environ.get("VERIF_NO_RENAMES"):
+                mods |= {m.name for m in self.repo.modules.values() if m.rel in self.analysed_files}
+                for mn in sorted(mods):
+                    mod = self.repo.modules.get(mn)
+                    if mod is None or mn not in tab:
+                        continue
+                    have = {q: f for q, f in mod.functions()}
+                    gone = [q for q in tab[mn] if q not in have]
+                    if gone:
+                        excuse = f"function(s) of {mn} known to the reference tree no longer exist under that name: {gone[:3]}"
+                        break
+                    fresh = [q for q in have if q not in tab[mn]]
+                    if fresh:
+                        excuse = f"{mn} has functions the reference tree does not know: {fresh[:3]}"
+                        break
+                    for q, f in have.items():
+                        if renames.function_locals(f) != set(tab[mn][q]["locals"]) or (renames.edit_distance_to_reference(mn, q, f) or (0, 0))[0] >= 1:
+                            excuse = f"{mn}:{q} differs from the reference tree"
+                            break
+                    if excuse:
+                        break
+            if excuse:
+                self.notes.append(f"UNDECIDED rule {name} could not run ({msg}); the code it reads changed since it was written: {excuse}")
+                for rid in declared:
+                    self.floors[rid] = 0
+            else:
+                raise AnalysisError(msg)
+
+    def _downgrade_in_restructured(self, restructured: dict, open_keys: dict):
+        """A violation whose rule depends on statement shapes, located in (or computed from) a function that was substantially rewritten
+        since the rule's instances were confirmed, is reported as undecided: the extraction is not trusted there. Violations of
+        shape-independent rules and violations in functions that differ by a few statements (what a defect looks like) stand."""
+        if not restructured:
+            return
+        for o in self.obs:
+            if o.status != VIOLATED or o.rule in self.shape_independent or o.key in open_keys:
+                continue
+            names = [f"{mn}:{q}" for (mn, q) in o.deps]
+            fa = self._function_at(o.loc)
+            if fa:
+                names.append(f"{fa[0]}:{fa[1]}")
+            hit = [n for n in names if n in restructured]
+            if hit:
+                o.status = UNDECIDED
+                o.detail = (f"[not decided: {hit[0]} was restructured since this rule was confirmed ({restructured[hit[0]]}); "
+                            f"the rule reads statement shapes and does not recognise the new ones] " + o.detail)
 
     def _write_evidence(self, n_ok, n_und, viol, known_hit, new_viol, counts):
         distinct = {o.key for o in self.obs if o.status in (OK, VIOLATED)}
